@@ -124,9 +124,22 @@ def read_view(obj, v):
     raise ValueError("unknown view " + v)
 
 
-def replay_history(sh0, hist, via):
+SCALE_FREE = {"insert", "remove", "remove_multi", "refine", "refine_helper", "reverse", "transpose", "flip", "read", "sample_size", "sample_size_dir"}
+
+
+def replay_history(sh0, hist, via, conj=None):
+    """conj = s: the history is replayed on the object scaled by s (a power of two, exact in binary floating point) and the result is
+    scaled back by 1/s - the operations of SCALE_FREE commute with uniform scaling, so the outcome must be the same definition.
+    Shows whether an operation treats very small / very large coordinates differently."""
+    from geomdl import operations
     obj = build(sh0)
+    if conj is not None:
+        if any(st["a"] not in SCALE_FREE for st in hist):
+            raise ValueError("history carries coordinates: not replayable under scaling")
+        operations.scale(obj, conj, inplace=True)
     infos = []
     for st in hist:
         infos.append(apply_step(obj, st, via))
+    if conj is not None:
+        operations.scale(obj, 1.0 / conj, inplace=True)
     return obj, infos
